@@ -17,7 +17,11 @@ class InvalidNumberOfElementsError(TypeParameterError):
 
 class ArrayType(SerializableType):
     def __init__(self, element_type: SerializableType, capacity: int):
+        from ._composite import ServiceType  # Local import to break the circular dependency.
+
         super().__init__()
+        if isinstance(element_type, ServiceType):
+            raise TypeParameterError("Service types are not serializable and cannot be used as array element types")
         self._element_type = element_type
         self._capacity = int(capacity)
         if self._capacity < 1:
